@@ -168,13 +168,21 @@ def build(tp: Template, cfg: Cfg) -> Built:
             if "polars" in tp.backends:
                 key = "polars" + sfx
                 try:
-                    tbl = prog(RL.RealAPI, *RL.polars_tables(tp.sources, frames))
+                    RL.COLLECTED.clear()
+                    RL.SYMBOLIC_BUILD[0] = True
+                    try:
+                        tbl = prog(RL.RealAPI, *RL.polars_tables(tp.sources, frames))
+                    finally:
+                        RL.SYMBOLIC_BUILD[0] = False
                     if isinstance(tbl, tuple):
                         tbl, b.extras[key] = tbl
                     b.meta_cols[key] = _meta(tbl)
                     plan = RL.plan_json(tbl)
                     b.artefact[key] = plan
-                    sem = PolarsSem([(RL.scan_key(frames[name]), b.syms[name].rel) for name, _ in tp.sources], str_len=str_len)
+                    sem = PolarsSem(
+                        [(RL.scan_key(frames[name]), b.syms[name].rel) for name, _ in tp.sources],
+                        str_len=str_len, collected=list(RL.COLLECTED),
+                    )  # fmt: skip
                     try:
                         b.rel[key] = sem.plan(plan)
                         b.status[key] = "ok"
@@ -189,15 +197,29 @@ def build(tp: Template, cfg: Cfg) -> Built:
                 key = "sqlite" + sfx
                 try:
                     eng = RL.sqlite_engine(tp.sources, frames)
-                    tbl = prog(RL.RealAPI, *RL.sqlite_tables(tp.sources, eng))
+                    RL.COLLECTED.clear()
+                    RL.SYMBOLIC_BUILD[0] = True
+                    try:
+                        tbl = prog(RL.RealAPI, *RL.sqlite_tables(tp.sources, eng))
+                    finally:
+                        RL.SYMBOLIC_BUILD[0] = False
                     if isinstance(tbl, tuple):
                         tbl, b.extras[key] = tbl
                     b.meta_cols[key] = _meta(tbl)
                     sql = RL.sql_text(tbl)
-                    b.artefact[key] = sql
-                    sem = SqliteSem({name: b.syms[name].rel for name, _ in tp.sources}, str_len=str_len)
+                    sql_tables = {name: b.syms[name].rel for name, _ in tp.sources}
+                    if sql is None:
+                        # the pipeline passed through collect(): the rest runs on Polars
+                        plan = RL.plan_json(tbl)
+                        b.artefact[key] = {"plan_after_collect": True}
+                        sem = PolarsSem([], str_len=str_len, collected=list(RL.COLLECTED), sql_tables=sql_tables)
+                        runner = lambda: sem.plan(plan)  # noqa: E731
+                    else:
+                        b.artefact[key] = sql
+                        sem = SqliteSem(sql_tables, str_len=str_len)
+                        runner = lambda: sem.run(sql)  # noqa: E731
                     try:
-                        b.rel[key] = sem.run(sql)
+                        b.rel[key] = runner()
                         b.status[key] = "ok"
                     except Unsupported as e:
                         b.status[key] = f"unsupported:{e}"
@@ -712,7 +734,7 @@ def analyse(tp: Template, cfg: Cfg, *, known=None) -> dict:
         obls.append(Obl(tp.name, "analyse", f"harness-error:{type(e).__name__}:{e}", detail=traceback.format_exc()))
     arte = {}
     if "sqlite" in b.artefact:
-        arte["sql"] = b.artefact["sqlite"]
+        arte["sql"] = b.artefact["sqlite"] if isinstance(b.artefact["sqlite"], str) else "<polars plan after collect()>"
     if "polars" in b.artefact:
         arte["plan_sha1"] = hashlib.sha1(json.dumps(b.artefact["polars"], sort_keys=True, default=str).encode()).hexdigest()[:12]
     return {
